@@ -514,6 +514,33 @@ func feeHistory(e *Env, h int) bool {
 	}{{"check", sdk.ExecModeCheck}, {"check", sdk.ExecModeCheck}, {"check", sdk.ExecModeCheck}, {"recheck", sdk.ExecModeReCheck}, {"simulate", sdk.ExecModeSimulate}, {"finalize", sdk.ExecModeFinalize}}
 
 	for round := 0; round < 2; round++ {
+		if round == 1 && r.N(3) > 0 {
+			// governance changes the fee denom / bypass list while the node keeps running: the same decorator instances (the
+			// one built above and the one inside the application's ante chain) must follow the stored params
+			nd := w.feeDenom
+			nb := w.bypass
+			switch r.N(3) {
+			case 0:
+				nd = map[string]string{"urise": "uaaa", "uaaa": "urise"}[w.feeDenom]
+			case 1:
+				nb = nil
+			default:
+				nd = map[string]string{"urise": "uaaa", "uaaa": "urise"}[w.feeDenom]
+				nb = []string{w.feeDenom}
+			}
+			by := nb
+			if by == nil {
+				by = []string{}
+			}
+			gov := authtypes.NewModuleAddress("gov").String()
+			_, err, p := c.Exec(&feetypes.MsgUpdateParams{Authority: gov, Params: feetypes.Params{FeeDenom: nd, BurnRatio: w.burnRatio.String(), BypassDenoms: by}})
+			if err == nil && p == nil {
+				w.feeDenom, w.bypass = nd, nb
+				e.Stat("fee.params_updated")
+			} else {
+				e.Note("fee MsgUpdateParams: %v %v", err, p)
+			}
+		}
 		// ---------------- phase A: the decorator itself, on committed state
 		w.reset(c.Ctx())
 		for k := 0; k < 14; k++ {
